@@ -69,6 +69,7 @@ type Config struct {
 	Introspect    string `json:"introspect"`               // "" (exact) | "e2e"
 	MaxBatch      int    `json:"max_batch"`                // 0: default factory (3000 over http.DefaultClient)
 	SharedQueryer bool   `json:"shared_queryer,omitempty"` // with MaxBatch: the factory returns one MultiOpQueryer per service for all operations
+	TCP           bool   `json:"tcp,omitempty"`            // the services are reached through a real net/http transport and loopback listeners (keep-alive pool, net/http's replay rules)
 	WriteGapUs    int    `json:"write_gap_us,omitempty"`   // websocket rigs: pause after every short write (a frame header) on gateway->client connections
 }
 
@@ -200,6 +201,13 @@ func New(spec UniverseSpec, cfg Config) (*Rig, error) {
 		return nil, err
 	}
 	r.Cfg = cfg
+	if cfg.TCP {
+		for _, s := range r.Services {
+			if err := s.StartTCP(); err != nil {
+				return r, err
+			}
+		}
+	}
 	if err := r.StartGateway(r.URLs); err != nil {
 		return r, err
 	}
@@ -281,6 +289,7 @@ func (r *Rig) StartGateway(urls []string) (err error) {
 func (r *Rig) Close() {
 	for _, s := range r.Services {
 		fake.Global.Unregister(s)
+		s.StopTCP()
 	}
 }
 
